@@ -34,9 +34,20 @@ fn main() {
         }
         return;
     }
+    if cmd == "rules" {
+        for (stage, rules) in risinglight::planner::verif_rule_sets() {
+            for r in rules {
+                println!("{stage} {}", r.name);
+            }
+        }
+        return;
+    }
     if cmd == "sql" {
         // rlv sql [--disk] "stmt" "stmt" ...   (development aid)
         let disk = args.iter().any(|a| a == "--disk");
+        if let Ok(r) = std::env::var("RLV_DISABLE_RULES") {
+            risinglight::verif::set_disabled_rules(r.split(',').map(|x| x.trim().to_string()).filter(|x| !x.is_empty()).collect());
+        }
         let stmts: Vec<String> = args[2..].iter().filter(|a| !a.starts_with("--")).cloned().collect();
         let r = sqlrun::block_on(async move {
             let dir = std::env::temp_dir().join(format!("rlv-sql-{}", std::process::id()));
